@@ -48,13 +48,15 @@ META = dict(
 )
 
 THEOREMS = [
-    "PP.Diagram.diverges_unnamed_cycle",
     "PP.Diagram.bookmarks_distinct",
-    "PP.Diagram.terminates_partial",
-    "PP.Diagram.ranked_cycle_has_cut",
+    "PP.Diagram.output_sorted",
+    "PP.Diagram.unnamed_never_extracted",
+    "PP.Diagram.diverges_of_unnamed_loop",
+    "PP.Diagram.diverges_unnamed_cycle",
     "PP.Diagram.empty_placeholder_witness",
     "PP.Diagram.dangling_link_witness",
     "PP.Diagram.unnamed_forward_root_witness",
+    "PP.Diagram.root_not_first_witness",
     "PP.Diagram.named_cycle_ok",
 ]
 
@@ -336,8 +338,11 @@ def oracle(pp, D, stub, root, opts, res):
         if not isinstance(d.name, str):
             probs.append(("named", f"diagram name {d.name!r} is not a string"))
     want_root = root.customName if root.customName else ""
+    want = {want_root}
+    if isinstance(root, (pp.OneOrMore, pp.ZeroOrMore)) and getattr(root, "not_ender", None) is not None:
+        want.add(root.name)  # a stop_on repetition is drawn through a rewritten element that carries its name
     idx = [d.index for d in ds]
-    if idx != sorted(idx) or ds[0].name != want_root:
+    if idx != sorted(idx) or ds[0].name not in want:
         probs.append(("root_first", f"first diagram is {ds[0].name!r}, root is {want_root!r}; indices {idx}"))
     bms = [d.bookmark for d in ds]
     if len(set(bms)) != len(bms):
@@ -357,6 +362,8 @@ def oracle(pp, D, stub, root, opts, res):
                 texts.add(x.text)
             elif not isinstance(x, stub.DiagramItem):
                 probs.append(("no_empty_placeholder", f"item {x!r} in diagram {d.name!r}"))
+            elif isinstance(x, stub.DiagramMultiContainer) and not x.items:
+                probs.append(("no_empty_placeholder", f"{type(x).__name__} without items in diagram {d.name!r}"))
 
         walk(stub, d.diagram, f)
     for e in visible_leaves(pp, root, opts["hidden"]):
@@ -455,22 +462,69 @@ def regions(nodes, opts, has_stop=False):
         memo[u] = r
         return r
 
-    multi = ("And", "Or", "MatchFirst", "Each")
+    def placeholder(nd):
+        """initial placeholder of the partial created for the element (mirrors the isinstance chain)"""
+        c = nd["cls"]
+        if "And" in c:
+            same = len(nd["kids"]) > 2 and len({(nodes[k]["custom"] if nodes[k]["custom"] is not None
+                                                  else nodes[k]["dname"], nodes[k]["rname"])
+                                                 for k in nd["kids"]}) == 1
+            return "empty" if same else "items"
+        if "Or" in c or "MatchFirst" in c or "Each" in c:
+            return "items"
+        if "NotAny" in c or "FollowedBy" in c or "PrecededBy" in c:
+            return "empty"
+        if "Group" in c:
+            return "empty" if opts["groups"] else "none"
+        if "TokenConverter" in c:
+            return "items" if nd["tname"].lower() == "tokenconverter" else "empty"
+        if "Opt" in c or "ZeroOrMore" in c:
+            return "empty"
+        if "OneOrMore" in c:
+            return "none"
+        if "ParseElementEnhance" in c:
+            return "items"
+        return "empty" if not _truthy(nd["rname"]) else "items"
+
     for u, nd in enumerate(nodes):
         if passthru[u] or not nd["kids"]:
             continue
-        single = not any(c in nd["cls"] for c in multi)
-        allsame_and = "And" in nd["cls"] and len(nd["kids"]) > 2 and \
-            len({(nodes[k]["custom"] if nodes[k]["custom"] is not None else nodes[k]["dname"], nodes[k]["rname"])
-                 for k in nd["kids"]}) == 1
-        if (single or allsame_and) and all(nothing(k) for k in nd["kids"]):
+        if not nd["shown"] and not opts["hidden"]:
+            continue
+        if all(nothing(k) for k in nd["kids"]) and (placeholder(nd) == "empty" or _truthy(nd["custom"]) or u == 0):
             reg.add("diagram_empty_placeholder")
     if nothing(0) or passthru[0]:
         reg.add("diagram_unnamed_forward_root")
-    names = [nd["custom"] for nd in nodes if _truthy(nd["custom"])]
-    if "..." in names:
+    # unnamed root that can be reached again from itself
+    if not _truthy(nodes[0]["custom"]) and not passthru[0]:
+        seen, stack = set(), list(kids[0])
+        while stack:
+            v = stack.pop()
+            if v in seen:
+                continue
+            seen.add(v)
+            stack.extend(kids[v])
+        if 0 in seen:
+            reg.add("diagram_root_revisited")
+    named = [u for u, nd in enumerate(nodes) if _truthy(nd["custom"])]
+    if any(nodes[u]["custom"] == "..." for u in named):
         reg.add("diagram_dangling_skipto")
-    if len(set(names)) != len(names):
+    fp_memo = {}
+
+    def fp(u, path=()):
+        if u in path:
+            return ("cycle", path.index(u) - len(path))
+        nd = nodes[u]
+        return (nd["tname"], nd["custom"], nd["dname"], tuple(fp(k, path + (u,)) for k in nd["kids"]))
+
+    byname = {}
+    for u in named:
+        byname.setdefault(nodes[u]["custom"], []).append(u)
+    for nm, us in byname.items():
+        if len(us) > 1 and len({fp(u) for u in us}) > 1:
+            reg.add("diagram_same_name_merge")
+    # the root's name must be its own
+    if _truthy(nodes[0]["custom"]) and len(byname.get(nodes[0]["custom"], [])) > 1:
         reg.add("diagram_same_name_merge")
     return reg
 
@@ -609,6 +663,9 @@ WITNESS = {
                                 "links_resolve"),
     "diagram_unnamed_forward_root": ({"prog": [["fwd"], ["word", "01"], ["lit", "x"], ["plus", 1, 2],
                                                ["assign", 0, 3]], "root": 0}, "root_first"),
+    "diagram_root_revisited": ({"prog": [["fwd"], ["name", 0, "E"], ["lit", "("], ["lit", ")"], ["and", [2, 0, 3]],
+                                         ["word", "01"], ["mf", [5, 4]], ["assign", 0, 6]], "root": 4},
+                               "root_first"),
     "diagram_same_name_merge": ({"prog": [["word", "a"], ["lit", "x"], ["plus", 0, 1], ["name", 2, "n"],
                                           ["word", "b"], ["lit", "y"], ["plus", 4, 5], ["name", 6, "n"],
                                           ["plus", 2, 6]], "root": 8}, "tokens_covered"),
@@ -627,6 +684,78 @@ def run_case(case, opts, want_model=True):
     if res[0] == "ok" and not probs:
         probs += oracle_create_diagram(pp, root, opts)
     return dict(nodes=nodes, has_stop=has_stop, res=res, canon=canon_result(D, stub, res), probs=probs, root=root)
+
+
+# grammars the Lean witness theorems speak about: regenerated from the live element graphs on every run
+LEAN_GRAMMARS = {
+    "gUnnamed": ("diagram_unnamed_cycle", None),
+    "gEmptyOpt": ("diagram_empty_placeholder", None),
+    "gSkip": ("diagram_dangling_skipto", None),
+    "gFwdRoot": ("diagram_unnamed_forward_root", None),
+    "gRootOnCycle": ("diagram_root_revisited", None),
+    "gNamed": (None, {"prog": [["fwd"], ["name", 0, "E"], ["word", "0123456789"], ["lit", "("], ["lit", ")"],
+                               ["and", [3, 0, 4]], ["mf", [2, 5]], ["assign", 0, 6]], "root": 0}),
+}
+
+
+def _lean_str(s):
+    out = ['"']
+    for ch in s:
+        if ch == "\\":
+            out.append("\\\\")
+        elif ch == '"':
+            out.append('\\"')
+        elif ch == "\n":
+            out.append("\\n")
+        elif ch == "\t":
+            out.append("\\t")
+        elif 32 <= ord(ch) < 127:
+            out.append(ch)
+        else:
+            out.append("\\u{%x}" % ord(ch))
+    out.append('"')
+    return "".join(out)
+
+
+_LEAN_CLS = {"And": "and_", "Or": "or_", "MatchFirst": "matchFirst", "Each": "each", "NotAny": "notAny",
+             "FollowedBy": "followedBy", "PrecededBy": "precededBy", "Group": "group",
+             "TokenConverter": "tokenConverter", "Opt": "opt", "OneOrMore": "oneOrMore", "ZeroOrMore": "zeroOrMore",
+             "Empty": "empty", "ParseElementEnhance": "enhance", "Regex": "regex", "Forward": "forward",
+             "Located": "located", "PositionToken": "positionToken", "_ErrorStop": "errorStop"}
+
+
+def _lean_opt(v):
+    return "none" if v is None else f"some {_lean_str(v)}"
+
+
+def gen_witness_lean():
+    """PPProofs/Props/Gen/C20Witness.lean: node tables of the witness grammars, read off the live elements"""
+    pp, D, stub = load_diagram()
+    out = ["import PPModel.Mod.Diagram",
+           "/-! GENERATED by harness/props/c20.py from the element graphs built with the current /repo source",
+           "    (program -> real API -> streamline -> table of the facts the converter reads). Do not edit. -/",
+           "namespace PP.Diagram", ""]
+    for lname, (sig, case) in LEAN_GRAMMARS.items():
+        if case is None:
+            case = WITNESS[sig][0]
+        env = build(pp, case["prog"])
+        root = env[case["root"]]
+        root.streamline()
+        nodes, _, _ = table_of(pp, D, root)
+        out.append(f"/-- {json.dumps(case)} -/")
+        out.append(f"def {lname} : Grammar :=")
+        rows = []
+        for nd in nodes:
+            cls = ", ".join("." + _LEAN_CLS[c] for c in nd["cls"])
+            rows.append(
+                f"  {{ cls := [{cls}], tname := {_lean_str(nd['tname'])}, kids := {nd['kids']}, "
+                f"custom := {_lean_opt(nd['custom'])}, rname := {_lean_opt(nd['rname'])},\n"
+                f"        modal := {'true' if nd['modal'] else 'false'}, shown := {'true' if nd['shown'] else 'false'}, "
+                f"dname := {_lean_str(nd['dname'])}, term := {_lean_str(nd['term'])} }}")
+        out.append("  [\n" + ",\n".join("  " + r for r in rows) + " ]")
+        out.append("")
+    out.append("end PP.Diagram")
+    return "\n".join(out) + "\n"
 
 
 def check_known(ctx):
@@ -652,7 +781,8 @@ def _how(case, opts):
 
 def run(ctx):
     pp, D, stub = load_diagram()
-    ok_proof = ctx.proof_leg("PPProofs.Props.C20", THEOREMS)
+    ok_proof = ctx.proof_leg("PPProofs.Props.C20", THEOREMS,
+                             generated={"PPProofs/Props/Gen/C20Witness.lean": gen_witness_lean()})
     ctx.rule.append(
         "random grammar programs (2-4 token leaves from 13 kinds, 0-2 Forwards, Empty/Tag, `size` composites over "
         "And/MatchFirst/Or/Each/+/-/Opt/ZeroOrMore/OneOrMore/Group/Suppress/Combine/Dict/NotAny/FollowedBy/"
@@ -669,9 +799,9 @@ def run(ctx):
     if cdir.exists():
         for f in sorted(cdir.glob("*.json")):
             corpus.append(json.loads(f.read_text()))
-    cases = [(c, OPTS0, True) for c in BATTERY]
+    cases = [(c, OPTS0, "battery") for c in BATTERY]
     for c in BATTERY:
-        cases.append((c, {"vertical": 1, "names": True, "groups": True, "hidden": True}, True))
+        cases.append((c, {"vertical": 1, "names": True, "groups": True, "hidden": True}, "battery"))
     for c in corpus:
         cases.append((c["case"], c.get("opts", OPTS0), c.get("safe", True)))
     rng = ctx.subrng("gen")
@@ -710,7 +840,7 @@ def _one(args):
 def _judge(ctx, cases, stream, correspond=True):
     results = common.pmap(_one, cases)
     ccases, lines, impl = [], [], []
-    outcomes, n_or, skipped = {}, 0, 0
+    outcomes, n_or, skipped, rejected = {}, 0, 0, 0
     for (case, opts, safe), r in zip(cases, results):
         if "skip" in r:
             skipped += 1
@@ -722,9 +852,12 @@ def _judge(ctx, cases, stream, correspond=True):
             impl.append(r["canon"])
         if safe:
             n_or += 1
-            if reg:
-                # the generator promised to stay out: a harness defect, not a property failure
-                raise common.HarnessError(f"safe generator entered region {sorted(reg)}: {json.dumps(case)}")
+            if reg and safe != "battery":
+                # the generator could not avoid a region by construction (e.g. copies made by results names):
+                # the case is left to the correspondence stream
+                n_or -= 1
+                rejected += 1
+                continue
             key = "ok" if not r["probs"] else r["probs"][0][0]
             outcomes[key] = outcomes.get(key, 0) + 1
             if r["probs"] and len(ctx.fail_inputs) < 3:
@@ -737,6 +870,11 @@ def _judge(ctx, cases, stream, correspond=True):
                     samples=[{"case": cases[0][0], "opts": cases[0][1]}])
     ctx.notes.setdefault("skipped_programs", 0)
     ctx.notes["skipped_programs"] += skipped
+    ctx.notes.setdefault("safe_stream_rejected_by_region_classifier", 0)
+    ctx.notes["safe_stream_rejected_by_region_classifier"] += rejected
+    n_safe_total = sum(1 for c in cases if c[2])
+    if n_safe_total > 50 and rejected > 0.5 * n_safe_total:
+        raise common.HarnessError(f"safe generator: {rejected}/{n_safe_total} cases fell into known-finding regions")
     if ccases:
         diffs = ctx.correspond(f"diagram-{stream}", ccases, lines, impl,
                                nontrivial=lambda c, o: o.count("(") > 6,
@@ -764,37 +902,95 @@ def _fails(case, opts, clause):
     return out["probs"] if hit else None
 
 
+def prune(case):
+    """drop the statements the root does not depend on and renumber"""
+    prog, root = case["prog"], case["root"]
+
+    def refs(st):
+        op = st[0]
+        if op in ("and", "mf", "or", "each"):
+            return list(st[1])
+        if op in ("plus", "minus", "zom_stop", "oom_stop", "ellipsis", "assign"):
+            return [st[1], st[2]]
+        if op in ("opt", "zom", "oom", "mul", "group", "suppress", "combine", "dict", "not", "fb", "located",
+                  "skipto", "atline", "delim", "infix", "name", "rname"):
+            return [st[1]]
+        return []
+
+    need, changed = {root}, True
+    while changed:
+        changed = False
+        for k, st in enumerate(prog):
+            hit = k in need or (st[0] in ("name", "assign") and st[1] in need)
+            if hit:
+                for r in [k] + refs(st):
+                    if r not in need:
+                        need.add(r)
+                        changed = True
+    keep = sorted(need)
+    ren = {k: i for i, k in enumerate(keep)}
+    out = []
+    for k in keep:
+        st = list(prog[k])
+        op = st[0]
+        if op in ("and", "mf", "or", "each"):
+            st[1] = [ren[r] for r in st[1]]
+        elif op in ("plus", "minus", "zom_stop", "oom_stop", "ellipsis", "assign"):
+            st[1], st[2] = ren[st[1]], ren[st[2]]
+        elif refs(st):
+            st[1] = ren[st[1]]
+        out.append(st)
+    return {"prog": out, "root": ren[root]}
+
+
 def shrink(case, opts, clause):
-    """greedy: simpler options, replace the root by an earlier definition, drop trailing statements"""
-    best = (case, opts, _fails(case, opts, clause) or [(clause, "?")])
-    for o2 in (OPTS0, dict(opts, names=False), dict(opts, groups=False), dict(opts, hidden=False)):
+    """greedy: simpler options, an earlier definition as root, children instead of composites, pruning"""
+    first = _fails(case, opts, clause)
+    if not first:
+        return case, opts, [(clause, "not reproducible in isolation")]
+    best = (case, opts, first)
+    for o2 in (dict(opts, names=False), dict(opts, groups=False), dict(opts, hidden=False),
+               dict(opts, vertical=3), OPTS0):
+        o2 = dict(best[1], **{k: v for k, v in o2.items() if o2 is OPTS0 or v != opts[k]})
         p = _fails(best[0], o2, clause)
         if p:
             best = (best[0], o2, p)
-    changed = True
-    while changed:
-        changed = False
+    for _ in range(40):
         c = best[0]
-        for r in range(len(c["prog"])):
-            if r == c["root"]:
+        cands = []
+        for r in range(c["root"]):
+            cands.append({"prog": c["prog"], "root": r})
+        for k, st in enumerate(c["prog"]):
+            if st[0] in ("and", "mf", "or", "each") and len(st[1]) > 1:
+                for j in range(len(st[1])):
+                    p2 = [list(x) for x in c["prog"]]
+                    p2[k] = [st[0], st[1][:j] + st[1][j + 1:]]
+                    cands.append({"prog": p2, "root": c["root"]})
+            if st[0] in ("name", "rname") and k != c["root"]:
+                p2 = [list(x) for x in c["prog"]]
+                p2[k] = ["name", st[1], c["prog"][k][2]] if False else ["empty"]
+                if st[0] == "name":
+                    cands.append({"prog": p2, "root": c["root"]})
+        for c2 in cands:
+            try:
+                c2 = prune(c2)
+            except Exception:
                 continue
-            c2 = {"prog": c["prog"], "root": r}
-            p = _fails(c2, best[1], clause)
-            if p and r < c["root"]:
-                best = (c2, best[1], p)
-                changed = True
-                break
-        c = best[0]
-        # drop statements after the root that are not needed (names/assigns may be)
-        for k in range(len(c["prog"]) - 1, c["root"], -1):
-            c2 = {"prog": c["prog"][:k] + c["prog"][k + 1:], "root": c["root"]}
-            if any(isinstance(a, int) and a >= k for st in c2["prog"][k:] for a in st[1:2]):
+            if len(json.dumps(c2)) >= len(json.dumps(prune(c))) and c2["root"] >= c["root"]:
                 continue
             p = _fails(c2, best[1], clause)
             if p:
                 best = (c2, best[1], p)
-                changed = True
                 break
+        else:
+            break
+    try:
+        pc = prune(best[0])
+        p = _fails(pc, best[1], clause)
+        if p:
+            best = (pc, best[1], p)
+    except Exception:
+        pass
     return best
 
 
